@@ -53,3 +53,13 @@ package loglist3
 //@ at inc assert [asks-that-logs-own-root-set-about-this-root] inc.cert == certRoot && inc.p == roots[l.URL]
 //@ loop 2 step-assert [every-log-with-unknown-roots-is-kept] !has(roots, l.URL) ==> keepUnknown.called
 //@ loop 2 step-assert [every-log-that-accepts-the-root-is-kept] has(roots, l.URL) && certRoot != nil ==> inc.called && (inc.res ==> keepIncluded.called)
+
+// C17 "Only usable logs ... are contacted": the status of a log is read off its state record
+// (first of pending, qualified, usable, read-only, retired, rejected that is set; none or no record
+// is "undefined"), and the status filter keeps a log only when that status is one of those asked for.
+//@ func (*LogStates).LogStatus
+//@ props C17
+//@ pure
+//@ ensures [no-record-is-undefined] ls == nil ==> result == UndefinedLogStatus
+//@ ensures [first-state-set-decides] ls != nil ==> result == (ls.Pending != nil ? PendingLogStatus : (ls.Qualified != nil ? QualifiedLogStatus : (ls.Usable != nil ? UsableLogStatus : (ls.ReadOnly != nil ? ReadOnlyLogStatus : (ls.Retired != nil ? RetiredLogStatus : (ls.Rejected != nil ? RejectedLogStatus : UndefinedLogStatus))))))
+//@ ensures [usable-means-the-usable-state-is-set] result == UsableLogStatus ==> ls != nil && ls.Usable != nil
